@@ -153,6 +153,8 @@ func checkC10(w *World, r *Report) {
 	checkParentRendersNow(w, r)
 	checkOverrideLookup(w, r)
 	checkExtendingRendersNothingElse(w, r)
+	checkBodiesRenderInPlace(w, r)
+	checkOwnBlocksRegistered(w, r)
 	checkResolvesThroughLoad(w, r, "R10.5", []string{"ExtendsNode"}, "a parent remembered from an earlier render is used although the parent name is an expression (or the engine would reload it): the child is laid out in the wrong parent")
 
 	// ---- R10.2
@@ -697,7 +699,6 @@ func checkExtendingRendersNothingElse(w *World, r *Report) {
 	r.floor("hand-overs of the output to an extends node", n, 1)
 }
 
-
 // mapsCopyCall: in is `maps.Copy(dst, src)` (an instantiation of the standard library's generic
 // copy: for k, v := range src { dst[k] = v }).
 func mapsCopyCall(in ssa.Instruction) (dst, src ssa.Value, ok bool) {
@@ -717,4 +718,166 @@ func mapsCopyCall(in ssa.Instruction) (dst, src ssa.Value, ok bool) {
 		return nil, nil, false
 	}
 	return c.Call.Args[0], c.Call.Args[1], true
+}
+
+// checkBodiesRenderInPlace — R10.8: the pieces of one template render in one context.  A node
+// that only structures its own template (if, for, apply, spaceless, set, block, …: every Node
+// implementation whose Render does not load another template and is not a macro) hands the
+// context it was given — not a clone, not a new one — to every node it renders.  A derived
+// context does not know the block that is being rendered, so parent() fails inside it, and what
+// the body sets is lost.
+func checkBodiesRenderInPlace(w *World, r *Report) {
+	loaders := w.templateLoaders()
+	ctors := w.ctxConstructors()
+	n := 0
+	for _, nt := range w.nodeStructs() {
+		name := nt.Obj().Name()
+		if strings.Contains(name, "Macro") {
+			continue
+		}
+		for _, fn := range w.pkgFuncs() {
+			if fn.Signature.Recv() == nil || fn.Synthetic != "" || !types.Identical(deref(fn.Signature.Recv().Type()), nt) {
+				continue
+			}
+			if len(fn.Params) < 3 || loaders[fn] || !isNamed(fn.Params[2].Type(), twigPath, "RenderContext") {
+				continue
+			}
+			// does the renderer (or a part of it) load a template?
+			loads := false
+			instrsOf(fn, func(in ssa.Instruction) {
+				if c, ok := in.(ssa.CallInstruction); ok {
+					if g := c.Common().StaticCallee(); g != nil && loaders[g] {
+						loads = true
+					}
+				}
+			})
+			if loads {
+				continue
+			}
+			ctxParam := fn.Params[2]
+			instrsOf(fn, func(in ssa.Instruction) {
+				c, ok := in.(ssa.CallInstruction)
+				if !ok {
+					return
+				}
+				if c.Common().IsInvoke() {
+					if c.Common().Method.Name() != "Render" || !isNamed(c.Common().Value.Type(), twigPath, "Node") {
+						return
+					}
+				} else {
+					// a "render these nodes" helper
+					g := c.Common().StaticCallee()
+					if g == nil || !isTwigFn(g) {
+						return
+					}
+					renders := false
+					for i, p := range g.Params {
+						if i < len(c.Common().Args) && rendersParam(g, p) {
+							renders = true
+						}
+					}
+					if !renders {
+						return
+					}
+				}
+				for _, a := range c.Common().Args {
+					if !isNamed(a.Type(), twigPath, "RenderContext") {
+						continue
+					}
+					n++
+					construct := "nested render uses the node's own context"
+					// every origin of the handed context: the parameter itself
+					bad := ""
+					var walk func(v ssa.Value, seen map[ssa.Value]bool)
+					walk = func(v ssa.Value, seen map[ssa.Value]bool) {
+						v = unspill(v)
+						if seen[v] || bad != "" {
+							return
+						}
+						seen[v] = true
+						switch x := v.(type) {
+						case *ssa.Parameter:
+							if x != ctxParam {
+								bad = "parameter " + x.Name()
+							}
+						case *ssa.Phi:
+							for _, e := range x.Edges {
+								walk(e, seen)
+							}
+						case *ssa.Call:
+							if g := x.Call.StaticCallee(); g != nil && ctors[g] {
+								bad = "a context made by " + g.Name()
+							} else {
+								bad = "the result of " + x.Call.String()
+							}
+						default:
+							bad = v.String()
+						}
+					}
+					walk(a, map[ssa.Value]bool{})
+					if bad == "" {
+						r.ok("R10.8", ssaName(fn), construct, w.posOf(in.Pos()), "the context parameter itself on every edge", true)
+					} else {
+						r.bad("R10.8", ssaName(fn), construct, w.posOf(in.Pos()), "the node renders part of its own template in "+bad+" instead of the context it was given: the derived context has no current block (parent() inside this construct fails or answers for another block) and assignments made in the body do not reach the template")
+					}
+				}
+			})
+		}
+	}
+	r.floor("nested renders in structural node types", n, 3)
+}
+
+// checkOwnBlocksRegistered — R10.9: a template that is rendered in its own right defines its
+// blocks.  Where a root node enters its blocks into the context's block table, an entry that is
+// already there may hold the store back only together with the fact that the template is being
+// rendered as somebody's parent (ctx.extending): an included template starts from a copy of the
+// includer's table, and a block of the same name there is not an override of the included
+// template's block.
+func checkOwnBlocksRegistered(w *World, r *Report) {
+	n := 0
+	for _, fn := range w.pkgFuncs() {
+		if fn.Signature.Recv() == nil || !isNamed(deref(fn.Signature.Recv().Type()), twigPath, "RootNode") {
+			continue
+		}
+		instrsOf(fn, func(in ssa.Instruction) {
+			mu, ok := in.(*ssa.MapUpdate)
+			if !ok {
+				return
+			}
+			if _, ok := fieldLoad(mu.Map, "RenderContext", "blocks"); !ok {
+				return
+			}
+			n++
+			construct := "a root node registers its own blocks"
+			presence, extending := false, false
+			for _, c := range controllingConds(in) {
+				var facts []condFact
+				expandCond(c, true, &facts, 0)
+				expandCond(c, false, &facts, 0)
+				for _, cf := range facts {
+					if lookupPresence(cf.v, mu.Map, mu.Key) {
+						presence = true
+					}
+					for _, o := range originChain(cf.v) {
+						if _, ok := fieldLoad(o, "RenderContext", "extending"); ok {
+							extending = true
+						}
+					}
+					if ph, ok := cf.v.(*ssa.Phi); ok {
+						for _, e := range ph.Edges {
+							if _, ok := fieldLoad(unspill(e), "RenderContext", "extending"); ok {
+								extending = true
+							}
+						}
+					}
+				}
+			}
+			if presence && !extending {
+				r.bad("R10.9", ssaName(fn), construct, w.posOf(in.Pos()), "whether the template's block is entered into the block table depends only on the table already holding that name, not on the template being rendered as a parent: an included template (its table starts as a copy of the includer's) renders the includer's block of the same name instead of its own")
+			} else {
+				r.ok("R10.9", ssaName(fn), construct, w.posOf(in.Pos()), "not held back by presence alone", true)
+			}
+		})
+	}
+	r.floor("block registrations in the root node", n, 1)
 }
